@@ -434,8 +434,13 @@ fn check(ctx: &mut Ctx, p: &Program, idx: u64, r: &mut Rng) {
             continue;
         }
         let holes = has_source_holes(&h) || has_source_holes(&p.h);
+        let lost = !matches!(out0, Outcome::Rejected(_)) && matches!(&out1, Outcome::Rejected(why) if *why == "type-check-rejected");
         let key = if (d3_applicable(holes, &obs0) || d3_applicable(holes, &obs1)) && !explicit {
             D3_KEY.to_owned()
+        } else if lost && holes && !explicit && obs1.hooks.shift_unresolved_refused > obs0.hooks.shift_unresolved_refused {
+            // the rewrite made unification move a term that still contains an unresolved hole to
+            // an outer scope, which `signed_shift` refuses
+            crate::typed::D16_KEY.to_owned()
         } else if matches!(out0, Outcome::Rejected(_)) != matches!(out1, Outcome::Rejected(_)) {
             format!("acceptance-changes:{}", if applied.len() == 1 { applied[0] } else { "sequence" })
         } else {
@@ -444,7 +449,11 @@ fn check(ctx: &mut Ctx, p: &Program, idx: u64, r: &mut Rng) {
         ctx.violation(
             &key,
             &format!("after [{}] the outcome changed from {out0:?} to {out1:?}", applied.join(", ")),
-            Json::obj().set("original", Json::s(&clip(&src0, 2500))).set("rewritten", Json::s(&clip(&src1, 2500))),
+            Json::obj()
+                .set("original", Json::s(&clip(&src0, 2500)))
+                .set("rewritten", Json::s(&clip(&src1, 2500)))
+                .set("hooks_original", Json::s(&format!("{:?}", obs0.hooks)))
+                .set("hooks_rewritten", Json::s(&format!("{:?}", obs1.hooks))),
         );
         return;
     }
